@@ -22,6 +22,24 @@ def fuzz(name, test, seconds, **kw):
 NOT_CLAIMED = {}
 
 PROPS = {
+    "C05": dict(
+        technique="PBT + native fuzzing with a differential validity oracle (independent error listeners on the same grammar) and a constructed accept/reject catalogue",
+        level_text="Arbitrary bytes, fragment soups, token/line mutations of all repository fixtures, node-boundary and byte-offset reader "
+                   "splits and arbitrary seeds are loaded; the outcome must be exactly one of (runner, error), never a panic, and must agree "
+                   "with an independent lexer+parser pair carrying the harness's own error listeners; a catalogue of constructed "
+                   "valid/invalid scripts pins the expectation independently of the grammar code. Search, not proof.",
+        level_note="The validity oracle shares the generated ANTLR grammar with the code under test (the property is stated relative to that grammar); "
+                   "the catalogue sub-check is the grammar-independent part. Running the loaded script is C06's business.",
+        rule="inputs: arbitrary bytes/strings, fragment soups, random-indentation bodies, 1-3 mutations of fixtures, fixtures split at node "
+             "boundaries or random byte offsets over 1-4 readers, seeds from five classes; non-trivial = input with a syntax error that still "
+             "contains a '---' body marker, or a valid mutated/split script; distinct = distinct serialised cases.",
+        assumptions=["zero readers is not a split and is not generated", "a panicking independent parse counts as invalid"],
+        subs=[
+            rapid("load", "TestC05Load", 6000, 60000),
+            enum("catalogue", "TestC05Catalogue"),
+            fuzz("load", "FuzzC05", 120),
+        ],
+    ),
     "C20": dict(
         technique="model-based stateful PBT (slice model) + exhaustive small-scope enumeration; invariant over generated token streams; native fuzzing",
         level_text="Generated and exhaustively enumerated operation histories against a slice model (every enqueue/dequeue word up to "
